@@ -125,6 +125,17 @@ var templates = []string{
 	"%s -> regexp %s", "%s -> match %s", "%s -> left %s", "%s -> right %s", "%s -> mjoin %s", "%s -> jsplit %s", "%s -> 2darray %s", "%s -> addheading %s",
 	"%s -> count %s", "%s -> pretty %s", "%s -> tabulate %s", "%s -> round %s", "a %s", "ja %s", "ta %s %s", "rand %s %s", "datetime %s %s", "printf %s %s",
 	"exitnum", "return %s", "break %s", "continue %s", "history %s", "jobs %s", "fid-list %s", "runtime %s", "time { out x }", "which %s", "type %s",
+	// size and nesting stress
+	"out " + strings.Repeat("x", 70000) + " -> %s %s", "out %s " + strings.Repeat("${out ", 40) + "x" + strings.Repeat("}", 40),
+	strings.Repeat("if { true } then { ", 60) + "out %s" + strings.Repeat(" }", 60), "out " + strings.Repeat("%%[", 150) + "%s" + strings.Repeat("]", 150),
+	"(" + strings.Repeat("(1+", 120) + "%s" + strings.Repeat(")", 120) + ")", "a [1..3000] -> foreach v { } -> %s %s", "%s " + strings.Repeat("a ", 3000),
+	"out " + strings.Repeat("a\\ ", 500) + "-> %s", "tout json (" + strings.Repeat("[", 300) + strings.Repeat("]", 300) + ") -> %s %s",
+	"alias vbar=vbaz\nalias vbaz=vbar\nvbar %s", "function vbaz { out $1 -> vq1 }\nfunction vq1 { <stdin> -> %s %s }\nvbaz %s",
+	"%s -> formap k v { out $k $v }", "for ( i=0; i<3; i++ ) { %s %s }", "v = 0\nwhile { $v < 3 } { v = $v + 1 ; %s %s }", "%s -> foreach --parallel %s v { out $v }",
+	"%s -> foreach --step %s v { out $v }", "%s -> foreach --jmap k { $k } { %s }", "test define vq2 %s\nout x -> <test_vq2> -> null", "%s -> <%s>", "<%s> -> %s",
+	"config get %s %s", "config eval %s %s { %s }", "!config %s %s", "runmode %s function\nout x", "%s -> tabulate --map --key-value %s", "%s -> tabulate --split-comma --joiner %s",
+	"%s -> select * from stdin where %s", "%s -> select count(*), %s group by 1", "%s -> jsplit %s -> [%s]", "datetime --in {now} --out %s", "datetime --in %s --value %s --out {unix}",
+	"%s -> list.case upper %s", "%s -> escape %s", "%s -> !escape", "%s -> gz -> !gz -> %s", "%s -> base64 -> !base64 %s", "%s -> !bz2", "%s -> !gz",
 }
 
 func gen(t *rapid.T) Case {
